@@ -148,8 +148,36 @@ def finding_probes():
     return out
 
 
+# The first few values a worker process round-trips are encoded and decoded again in later runs of the same
+# process (each batch has its own freshly forked process): tables that fill up, ids that are re-used and
+# counters that leak on error paths must not change how an earlier value is written or read.
+_CANARIES = []
+
+
+def _check_canaries(F, ctx):
+    for c in _CANARIES:
+        c["age"] += 1
+        if c["age"] % 4 and c["age"] < 64:
+            continue
+        ctx.stat("canary_reruns")
+        try:
+            fo = io.BytesIO()
+            for d in c["values"]:
+                F.schemaless_writer(fo, json.loads(c["schema"]), d)
+            data = fo.getvalue()
+            fo.seek(0)
+            got = [F.schemaless_reader(fo, json.loads(c["schema"])) for _ in c["values"]]
+        except Exception as e:  # noqa
+            raise Violation("history", "earlier-value-no-longer-round-trips", detail={"runs_since": c["age"], "exc": jsonable(e)}, scenario=c["desc"])
+        if data != c["data"] or not all(refavro.value_eq(a, b) for a, b in zip(got, c["got"])):
+            raise Violation("history", "earlier-value-round-trips-differently-later",
+                            detail={"runs_since": c["age"], "bytes_first": c["data"].hex()[:200], "bytes_now": data.hex()[:200],
+                                    "first": jsonable(c["got"][:2]), "now": jsonable(got[:2])}, scenario=c["desc"])
+
+
 def run_one(ch, ctx):
     F = common.fa()
+    _check_canaries(F, ctx)
     schema, gstats = gen.schema(ch, max_depth=3, max_fields=4)
     node = refavro.resolve(schema)
     mode = ch.weighted([4, 3, 3])
@@ -257,6 +285,11 @@ def sequential(F, ch, ctx, S, node, values, desc, wopts={}, ropts={}):
         ctx.probe("zero_length_value")
     ctx.evals += len(values)
     ctx.steps += len(values) * 2
+    if len(_CANARIES) < 3 and 0 < len(data) < 4096 and not wopts and not ropts:
+        try:
+            _CANARIES.append({"schema": json.dumps(desc["schema"]), "values": values, "data": data, "got": got, "desc": desc, "age": 0})
+        except (TypeError, ValueError):
+            pass
     ctx.ev("seq", data.hex())
     ctx.sample = dict(desc, mode="sequential", bytes=len(data))
     if data:
